@@ -14,3 +14,5 @@ import SpoxModel.Props.C01
 #print axioms C01.generated_entry_options_exercised
 #print axioms C01.usedArgs_caller_order
 #print axioms C01.dropUnused_idempotent
+#print axioms C01.read_inputs_must_be_listed
+#print axioms C01.usedArgs_least
